@@ -6,11 +6,15 @@ package c14
 import (
 	"encoding/json"
 	"fmt"
+	"html/template"
+	"reflect"
+	"regexp"
 	"sort"
 	"strings"
 	"sync"
 	"sync/atomic"
 	"testing"
+	"time"
 
 	"verif/internal/model"
 	"verif/internal/progs"
@@ -35,7 +39,20 @@ type ExecCase struct {
 	// Layout, when set, is a second template executed on the SAME context right after Src (a page and its
 	// layout: blocks stored by contentFor in the first execution are rendered by contentOf in the second)
 	Layout string `json:"layout,omitempty"`
+	// Prelude, when set (Ctx = child-of-shared-parent only), is a template executed ONCE on the shared parent, alone,
+	// before the goroutines start: what it leaves in the parent (functions, arrays, hashes, blocks stored by
+	// contentFor) is then used - never written - by the executions on the children
+	Prelude string `json:"prelude,omitempty"`
 }
+
+// knownOpen lists generator classes that reproduce a genuine defect of plush which is not repaired yet. A class listed
+// here is not generated (its cases are counted with r.Exclude). EMPTY BY DEFAULT: the shapes run, as the LAST phase of
+// TestProp because the race detector ends the process at the first report. See the final report of the widening pass.
+var knownOpen = map[string]bool{
+	// "stored-block-in-shared-parent": true,
+}
+
+const classStoredShared = "stored-block-in-shared-parent"
 
 // pages that store blocks, and layouts that render them in a later execution on the same context
 var pageSnippets = []string{
@@ -66,38 +83,275 @@ var localSnippets = []string{
 	`<%= s3 ~= fresh %>|<%= s3 == fresh %>|<%= for (w) in words { %><%= w ~= fresh %><% } %><%= truncate(fresh, {size: 2}) == fresh %>`,
 }
 
+// ---- wider pools (widening pass) ------------------------------------------------------------------------
+
+// Go values the wide snippets read. Everything is built afresh for every execution and is never written by a template.
+type kid struct {
+	Name string
+	N    int
+}
+
+func (k kid) Hello() string { return "hi " + k.Name }
+
+type inner struct{ Deep string }
+
+type rec struct {
+	Name string
+	N    int
+	Kids []kid
+	M    map[string]kid
+	P    *kid
+	In   inner
+}
+
+func (r rec) Kid(i int) kid          { return r.Kids[i] }
+func (r *rec) Greet(s string) string { return s + " " + r.Name }
+func (r rec) Self() rec              { return r }
+
+type car struct {
+	ID   int
+	Make string
+}
+
+type strg struct{ s string }
+
+func (s strg) String() string { return "strg<" + s.s + ">" }
+
+type htm struct{}
+
+func (htm) HTML() template.HTML { return "<i>htm</i>" }
+
+// dynValue returns a value of a struct type that did not exist before the call (the second field's name is new), with
+// a field Name: anything the engine remembers per Go type meets a type it has never seen in every execution
+func dynValue(n int64) interface{} {
+	t := reflect.StructOf([]reflect.StructField{
+		{Name: "Name", Type: reflect.TypeOf("")},
+		{Name: fmt.Sprintf("Pad%d", n), Type: reflect.TypeOf(0)},
+	})
+	v := reflect.New(t).Elem()
+	v.Field(0).SetString("dyn-name")
+	return v.Interface()
+}
+
+// fresh is the string that is different in every execution: fst is a record whose kids are all named by it, so that a
+// path evaluated with another execution's element shows in the output (the comparison with fresh becomes false)
+func freshRec(fresh string) rec {
+	return rec{Name: fresh, Kids: []kid{{fresh, 0}, {fresh, 1}, {fresh, 2}}, M: map[string]kid{"k": {fresh, 9}}, P: &kid{fresh, 5}, In: inner{fresh}}
+}
+
+var wideNames = regexp.MustCompile(`\b(st|pst|fst|tm|ptm|mp|strs|ints|hv|cr|sg|hm|dyn|upper|vari|opts|errh|hrender|tpl1)\b`)
+
+func wideData(ctx *plush.Context, fresh string) {
+	tm := time.Date(2021, 3, 4, 5, 6, 7, 0, time.UTC)
+	r := rec{Name: "rec<1>", N: 4, Kids: []kid{{"k0", 0}, {"k<1>", 1}, {"k2", 2}}, M: map[string]kid{"k": {"mk", 9}}, P: &kid{"pk", 5}, In: inner{"deep"}}
+	r2 := r
+	for k, v := range map[string]interface{}{
+		"st": r, "pst": &r2, "fst": freshRec(fresh), "tm": tm, "ptm": &tm, "mp": map[string]interface{}{"k": "v<"}, "strs": []string{"x<", "y"}, "ints": []int{3, 4},
+		"hv": template.HTML("<b>"), "cr": car{7, "m<"}, "sg": strg{"s"}, "hm": htm{}, "dyn": dynValue(atomic.AddInt64(&uniq, 1)),
+		"upper": func(s string) string { return strings.ToUpper(s) },
+		"vari": func(xs ...int) int {
+			n := 0
+			for _, x := range xs {
+				n += x
+			}
+			return n
+		},
+		"opts": func(s string, m map[string]interface{}) string { return fmt.Sprint(s, len(m)) },
+		"errh": func() (string, error) { return "", fmt.Errorf("errh says no") },
+		// a helper that renders a template text of its own through its helper context
+		"hrender": func(s string, help plush.HelperContext) (template.HTML, error) {
+			out, err := help.Render(s)
+			return template.HTML(out), err
+		},
+		"tpl1": "[<%= s1 %><%= for (i) in two { %><%= i %><% } %>]",
+	} {
+		ctx.Set(k, v)
+	}
+}
+
+// every snippet renders without error; together they call every built-in helper, select fields and methods through
+// values, pointers, indexes and call results, print every kind of value, forgive unknown identifiers, include partials
+// (nested, with data, with a layout, in a loop) and nest block helpers
+var wideSnippets = []string{
+	`<%= st.Name %>|<%= st.In.Deep %>|<%= st.Kids[1].Name %>|<%= st.Kid(0).Name %>|<%= pst.Greet("x") %>|<%= st.M["k"].Name %>|<%= for (k) in st.Kids { %><%= k.Hello() %><% } %>|<%= pst.Kids[i1].N + 1 %>|<%= st.P.Name %>|<%= st.Self().Kids[2].Hello() %>|<%= dyn.Name %>`,
+	`<%= fst.Kids[1].Name == fresh %>|<%= fst.Kid(0).Name == fresh %>|<%= fst.Self().Kids[2].Name == fresh %>|<%= fst.M["k"].Name == fresh %>|<%= for (i) in until(3) { %><%= fst.Kids[i].Name == fresh %><%= fst.Kid(i).N %><% } %>|<%= fst.P.Name == fresh %>|<%= fst.In.Deep == fresh %>`,
+	`<%= tm %>|<%= ptm %>|<% let TIME_FORMAT = "2006-01" %><%= tm %>|<%= hv %>|<%= sg %>|<%= hm %>|<%= strs %>|<%= mp["k"] %>|<%= for (k, v) in mp { %><%= k %>=<%= v %><% } %>|<%= 1.5 + 2.0 %>|<%= nil %>|<%= [s1, i2, [t]] %>|<%= for (x) in strs { %><%= x %><% } %><%= for (x) in ints { %><%= x %><% } %>`,
+	`<%= htmlEscape(s1) %>|<%= htmlEscape("q") { %><b><%= s2 %></b><% } %>|<%= jsEscape(s2) %>|<%= raw(s1) %>|<%= toJSON(mp) %>|<%= json(two) %>|<%= inspect(two) %>|<%= debug(s3) %>|<%= envOr("C14_NOT_SET", "dflt") %>|<%= pathFor("a/b") %>|<%= len(words) %>|<%= truncate(s3 + s3, {size: 6, trail: "~"}) %>|<%= pathFor(cr) %>|<%= pathFor([cr, cr]) %>|<%= toJSON(cr) %>|<%= inspect(cr) %>|<%= debug(cr) %>|<%= len(st.Kids) %>`,
+	`<%= camelize("a_bc") %>|<%= camelize_down_first("a_bc") %>|<%= capitalize(s3) %>|<%= dasherize("a b_c") %>|<%= downcase("ABC") %>|<%= ordinalize("3") %>|<%= pluralize("box") %>|<%= singularize("boxes") %>|<%= underscore("AbCd") %>|<%= upcase(s3) %>|<%= for (i) in between(1, 4) { %><%= i %><% } %>|<%= for (g) in groupBy(2, arr) { %><%= for (e) in g { %><%= e %><% } %>;<% } %>`,
+	`<%= if (nope1) { %>a<% } else { %>b<% } %>|<%= nope2 == nil %>|<%= !nope3 %>|<%= nope4 || t %>|<%= if (f) { %>x<% } else if (nope5) { %>y<% } else { %>z<% } %>|<%= f && nope6 %>|<%= nope7 != nil %>`,
+	`<%= partial("p1") %>|<%= partial("p2", {x: s3}) %>|<%= partial("p1") %>|<%= partial("p3", {layout: "lay"}) %>|<%= for (i) in two { %><%= partial("p2", {x: i}) %><% } %>`,
+	`<%= blk() { %>a<%= s1 %><%= blk() { %>b<%= for (i) in two { %><%= blk() { %><%= i %><% } %><% } %><% } %><% } %>|<%= contentOf("none") { %>dflt <%= s3 %><% } %>|<%= upper(s3) %>|<%= vari(i1, i2, i7) %>|<%= vari() %>|<%= opts("o") %>|<%= opts("o", {a: 1}) %>|<%= hrender(tpl1) %>|<%= hrender("t " + s3) %>`,
+	`<% let down = fn(n) { if (n == 0) { return 0 } return down(n - 1) + 1 } %><%= down(12) %>|<%= upper(upper(upper(upper(upper(upper(upper(upper(s3)))))))) %>`,
+}
+
+// calls nested 900 deep: the bound on the nesting of calls is 1000, so this is legal alone and must stay legal next to
+// other executions (dear under the race detector: a matrix of its own)
+var deepSnippet = `<%= ` + strings.Repeat("upcase(", 900) + `s3` + strings.Repeat(")", 900) + ` %>`
+
+var widePartials = map[string]string{
+	"p1":  `[<%= s1 %>]`,
+	"p2":  `(<%= x %>)<%= partial("p1") %>`,
+	"p3":  `3<%= i7 %><%= for (i) in two { %><%= i %><% } %>`,
+	"lay": `<l><%= yield %></l>`,
+	"bad": `x<% let = 3 %>y`,
+}
+
+// templates whose execution FAILS: the error text of every concurrent execution must be the sequential one
+var failingSnippets = []string{
+	`ok <%= s1 %><%= if (nopeA) { %>a<% } %><%= nopeB == nil %><%= nopeFinal %>`,
+	"a\nb\n<%= for (i) in arr { %>\n<%= i %><%= nopeInLoop %><% } %>",
+	`<%= 1 / i0 %>`,
+	`<%= arr[9] %>`,
+	`<%= s3 ~= "(" %>`,
+	`<%= errh() %>`,
+	`<%= partial("missing") %>`,
+	`<%= partial("bad") %>`,
+	`<%= blk() { %>x<%= nopeInBlock %><% } %>`,
+	`<%= upper(1) %>`,
+	`<%= st.Nope %>`,
+	`<% let f = fn(x) { return x + nopeInFn } %><%= f(1) %>`,
+}
+
+// texts that do not parse
+var brokenSnippets = []string{
+	`<%= 1 + %>`,
+	`a<% let = 3 %>b`,
+	`<%= arr[ %>`,
+	`<%= ) %>`,
+}
+
+// boundaries: nothing, text only, a comment only, one tag, deep nesting, many tags, long text
+var boundarySnippets = func() []string {
+	deepIf := strings.Repeat(`<%= if (t) { %>(`, 30) + "X" + strings.Repeat(`)<% } %>`, 30)
+	deepFor := `<%= for (a) in two { %><%= for (b) in two { %><%= for (c) in two { %><%= for (d) in two { %><%= a + b + c + d %><% } %><% } %><% } %><% } %>`
+	return []string{
+		``,
+		`plain text only & <b>`,
+		`<%# only a comment %>`,
+		`<%= 1 %>`,
+		`<% let only = 1 %>`,
+		deepIf,
+		deepFor,
+		strings.Repeat(`<%= i1 %>,`, 300),
+		strings.Repeat("0123456789abcdef", 4096),
+		"é\u00a0\u2028<%= \"é\" + s3 %>\r\n",
+	}
+}()
+
+// preludes: executed once on the shared parent. (1) functions and values the children then call and read. Every
+// function value is one object that all children share; a child's first call of each is a moment of its own, so there
+// are many of them, and their bodies compute on their parameters for a while (no look-up reaches the parent's lock)
+var preludeFns = func() string {
+	s := `<% let twice = fn(x) { return x + x } %><% let pick = fn(a, i) { return a[i] } %><% let parr = [1, 2, 3] %><% let ph = {a: "A", b: "B"} %><% let wrap = fn(x) { let one = fn(y) { return y + 1 } return one(x) * 2 } %>`
+	for i := 0; i < 16; i++ {
+		s += fmt.Sprintf(`<%% let f%d = fn(x, y) { return x%s + y } %%>`, i, strings.Repeat(" + x + y", 4+i*3))
+	}
+	return s
+}()
+
+// the first five definitions only (the random phase)
+var preludeFnsSmall = preludeFns[:strings.Index(preludeFns, "<% let f0 ")]
+
+var preludeFnUsers = func() []string {
+	calls, rev := "", ""
+	for i := 0; i < 16; i++ {
+		calls += fmt.Sprintf(`<%%= f%d(i1, i%d) %%>,`, i, []int{0, 1, 2, 7}[i%4])
+		rev += fmt.Sprintf(`<%%= f%d(i2, %d) %%>,`, 15-i, i)
+	}
+	return []string{
+		`<%= twice(i2) %>|<%= twice(s3) %>|<%= pick(parr, 1) %>|<%= ph["a"] %>|<%= for (x) in parr { %><%= twice(x) %><% } %>|<%= len(parr) %>|<%= wrap(i7) %>`,
+		`<%= twice(fresh) == fresh + fresh %>|<%= pick(words, 0) %>|<%= for (w) in words { %><%= twice(w) %><% } %>|<%= if (twice(i1) == 2) { %>two<% } %>|<%= pick(parr, wrap(i0)) %>`,
+		calls,
+		rev,
+	}
+}()
+
+// (2) blocks stored by contentFor, rendered by contentOf in the children (class stored-block-in-shared-parent)
+var preludeBlocks = []struct {
+	Prelude string
+	Users   []string
+}{
+	{pageSnippets[0], []string{layoutSnippets[0], layoutSnippets[1], `<%= contentOf("side") %><%= contentOf("side", {s1: "override"}) %>`}},
+	{pageSnippets[1], []string{layoutSnippets[0], layoutSnippets[1]}},
+	{`<% contentFor("cmp") { %><%= a == b %>/<%= for (i) in arr { %><%= a == b %><% } %><% } %>`,
+		[]string{`<%= contentOf("cmp", {a: fresh, b: fresh}) %>|<%= for (i) in two { %><%= contentOf("cmp", {a: i, b: i}) %><% } %>`}},
+}
+
 func runExec(r *vk.Run, c ExecCase) *vk.Fail {
 	r.Current("exec", c)
 	defer r.Watch("exec", c)()
 	saved := plush.CacheEnabled
 	defer func() { plush.CacheEnabled = saved }()
-	mkCtx := func() *plush.Context {
-		d := progs.Data()
-		d["fresh"] = fmt.Sprintf("zz-%d-never-matches", atomic.AddInt64(&uniq, 1)) // a different string for every execution
-		return progs.Context(d, progs.Helpers(nil), c.Partials)
-	}
-	// sequential baseline
-	plush.CacheEnabled = false
-	base := vk.Safe(func() (string, error) { return plush.Render(c.Src, mkCtx()) })
-	if base.Panicked() {
-		r.Exclude("panic (subject of C03/C04)")
-		return nil
-	}
-	if c.Layout != "" && base.Err == nil {
-		bctx := mkCtx()
-		base = vk.Safe(func() (string, error) {
-			a, err := plush.Render(c.Src, bctx)
-			if err != nil {
-				return a, err
-			}
-			b, err := plush.Render(c.Layout, bctx)
-			return a + "\x00" + b, err
-		})
-		if base.Panicked() {
-			r.Exclude("panic (subject of C03/C04)")
+	class := ""
+	if c.Prelude != "" && strings.Contains(c.Prelude, "contentFor(") && strings.Contains(c.Src+c.Layout, "contentOf(") {
+		class = classStoredShared
+		if knownOpen[class] {
+			r.Exclude(class)
 			return nil
 		}
 	}
+	// the text of every partial starts with a comment that is new in every run (and the same for all goroutines of
+	// the run): whatever the engine remembers per partial text is cold when the goroutines start
+	busted := func() map[string]string {
+		n := atomic.AddInt64(&uniq, 1)
+		m := map[string]string{}
+		for name, text := range c.Partials {
+			m[name] = fmt.Sprintf("<%%# c14 partial %d %%>%s", n, text)
+		}
+		return m
+	}
+	// the Go values of the wide pool are built only for texts that name one of them
+	text := c.Src + c.Layout + c.Prelude
+	for _, p := range c.Partials {
+		text += p
+	}
+	wide := wideNames.MatchString(text)
+	newFresh := func() string { return fmt.Sprintf("zz-%d-never-matches", atomic.AddInt64(&uniq, 1)) } // a different string for every execution
+	mkCtxWith := func(partials map[string]string) *plush.Context {
+		d := progs.Data()
+		fresh := newFresh()
+		d["fresh"] = fresh
+		ctx := progs.Context(d, progs.Helpers(nil), partials)
+		if wide {
+			wideData(ctx, fresh)
+		}
+		return ctx
+	}
+	// a child of a shared parent gets the values that differ per execution for itself
+	child := func(parent hctx.Context, fresh string) hctx.Context {
+		ctx := parent.New()
+		ctx.Set("fresh", fresh)
+		if wide {
+			ctx.Set("fst", freshRec(fresh))
+		}
+		return ctx
+	}
+	// one execution alone: [prelude on a new parent, then] the template [and the layout] on the kind of context the case names
+	alone := func() vk.Res {
+		parts := busted()
+		return vk.Safe(func() (string, error) {
+			var ctx hctx.Context = mkCtxWith(parts)
+			if c.Prelude != "" {
+				if _, err := plush.Render(c.Prelude, ctx); err != nil {
+					return "", fmt.Errorf("prelude: %w", err)
+				}
+			}
+			if c.Ctx == "child-of-shared-parent" {
+				ctx = child(ctx, newFresh())
+			}
+			a, err := plush.Render(c.Src, ctx)
+			if err != nil || c.Layout == "" {
+				return a, err
+			}
+			b, err := plush.Render(c.Layout, ctx)
+			return a + "\x00" + b, err
+		})
+	}
+	// The concurrent executions come FIRST and the sequential baseline after them: whatever the engine sets up once per
+	// process, on first use, is then first used by goroutines running at once (a baseline taken first would always
+	// have set it up already, alone).
+	parts := busted()
+	mkCtx := func() *plush.Context { return mkCtxWith(parts) }
 	src, lay := c.Src, c.Layout
 	var shared, sharedLay *plush.Template
 	switch c.Cache {
@@ -126,12 +380,40 @@ func runExec(r *vk.Run, c ExecCase) *vk.Fail {
 	var parent *plush.Context
 	if c.Ctx == "child-of-shared-parent" {
 		parent = mkCtx()
+		if c.Prelude != "" {
+			// once, alone, before anything runs concurrently
+			if _, err := plush.Render(c.Prelude, parent); err != nil {
+				r.Exclude("prelude fails")
+				return nil
+			}
+		}
 	}
 	type res struct {
 		out string
 		err string
 	}
 	results := make([][]res, c.G)
+	// Everything the harness itself shares is touched BEFORE the goroutines start: own root contexts are built here, the
+	// strings that differ per execution are numbered here. Between the start and the end the goroutines call nothing
+	// but plush (an atomic counter or a lock of the harness inside them would order their accesses for the race
+	// detector and hide unsynchronised pairs inside plush)
+	roots := make([][]*plush.Context, c.G)
+	freshes := make([][]string, c.G)
+	var built sync.WaitGroup
+	for g := range roots {
+		built.Add(1)
+		go func(g int) {
+			defer built.Done()
+			for k := 0; k < c.Rounds; k++ {
+				if parent == nil {
+					roots[g] = append(roots[g], mkCtx())
+				} else {
+					freshes[g] = append(freshes[g], newFresh())
+				}
+			}
+		}(g)
+	}
+	built.Wait() // all of it happens before the start
 	var wg sync.WaitGroup
 	start := make(chan struct{})
 	for g := 0; g < c.G; g++ {
@@ -142,9 +424,9 @@ func runExec(r *vk.Run, c ExecCase) *vk.Fail {
 			for k := 0; k < c.Rounds; k++ {
 				var ctx hctx.Context
 				if parent != nil {
-					ctx = parent.New()
+					ctx = child(parent, freshes[g][k])
 				} else {
-					ctx = mkCtx()
+					ctx = roots[g][k]
 				}
 				x := vk.Safe(func() (string, error) {
 					if shared != nil && k%2 == 0 {
@@ -177,20 +459,38 @@ func runExec(r *vk.Run, c ExecCase) *vk.Fail {
 	}
 	close(start)
 	wg.Wait()
+	// sequential baseline; a failure is taken twice: a result that is not even reproducible alone (an address in an
+	// error text, say) cannot be compared
 	plush.CacheEnabled = false
+	base := alone()
+	if base.Panicked() {
+		r.Exclude("panic (subject of C03/C04)")
+		return nil
+	}
+	if base.Err != nil {
+		// an error text may name an address
+		if again := alone(); base.String() != again.String() {
+			r.Exclude("not reproducible alone")
+			return nil
+		}
+	}
+	if c.Prelude != "" && base.Err != nil && strings.HasPrefix(base.Err.Error(), "prelude: ") {
+		r.Exclude("prelude fails")
+		return nil
+	}
 	want := res{out: base.Out}
 	if base.Err != nil {
 		want.err = base.Err.Error()
 	}
 	key, _ := json.Marshal(c)
 	nodeKinds := 0
-	for _, k := range []string{"if (", "for (", "fn(", "partial(", "contentOf(", "blk()", "let ", "[", "{"} {
+	for _, k := range []string{"if (", "for (", "fn(", "partial(", "contentOf(", "blk()", "let ", "[", "{", ".", "==", "nope"} {
 		if strings.Contains(c.Src, k) {
 			nodeKinds++
 		}
 	}
 	nt := ""
-	if c.Layout != "" {
+	if c.Layout != "" || c.Prelude != "" {
 		nodeKinds += 3
 	}
 	if c.G >= 2 && nodeKinds >= 3 {
@@ -198,20 +498,33 @@ func runExec(r *vk.Run, c ExecCase) *vk.Fail {
 	}
 	r.Count(nt, fmt.Sprintf("exec/%s/%s", c.Ctx, c.Cache))
 	r.Class(fmt.Sprintf("G=%d", c.G))
+	if want.err != "" {
+		r.Class("exec: the template fails alone (error texts compared)")
+	}
+	if c.Prelude != "" {
+		r.Class("exec: prelude executed once on the shared parent")
+	}
 	if nt != "" {
 		r.Sample(func() interface{} {
-			return map[string]interface{}{"template": c.Src, "layout": c.Layout, "goroutines": c.G, "context": c.Ctx, "cache": c.Cache, "sequential_result": want}
+			return map[string]interface{}{"template": c.Src, "layout": c.Layout, "prelude": c.Prelude, "goroutines": c.G, "context": c.Ctx, "cache": c.Cache, "sequential_result": want}
 		})
 	}
 	for g := range results {
 		for k, got := range results[g] {
 			if got != want {
-				return &vk.Fail{Kind: "exec", Case: c, Msg: fmt.Sprintf("template %q, %d goroutines, %s, cache %s: goroutine %d round %d got out=%q err=%q; alone it gives out=%q err=%q",
-					c.Src, c.G, c.Ctx, c.Cache, g, k, got.out, got.err, want.out, want.err)}
+				return &vk.Fail{Kind: "exec", Class: class, Case: c, Msg: fmt.Sprintf("template %q (layout %q, prelude on the shared parent %q), %d goroutines, %s, cache %s: goroutine %d round %d got out=%q err=%q; alone it gives out=%q err=%q",
+					clip(c.Src), c.Layout, c.Prelude, c.G, c.Ctx, c.Cache, g, k, clip(got.out), clip(got.err), clip(want.out), clip(want.err))}
 			}
 		}
 	}
 	return nil
+}
+
+func clip(s string) string {
+	if len(s) > 400 {
+		return s[:200] + " ... " + s[len(s)-200:]
+	}
+	return s
 }
 
 // ---- B: concurrent Parse / Render of equal and different texts, cache on -------------------------------
@@ -219,6 +532,8 @@ func runExec(r *vk.Run, c ExecCase) *vk.Fail {
 type ParseCase struct {
 	Srcs []string `json:"srcs"`
 	G    int      `json:"goroutines"`
+	// Set: every goroutine also stores the templates it parsed under keys of its own with CacheSet while the others parse
+	Set bool `json:"cache_set,omitempty"`
 }
 
 func runParse(r *vk.Run, c ParseCase) *vk.Fail {
@@ -226,15 +541,10 @@ func runParse(r *vk.Run, c ParseCase) *vk.Fail {
 	defer r.Watch("parse", c)()
 	saved := plush.CacheEnabled
 	defer func() { plush.CacheEnabled = saved }()
-	plush.CacheEnabled = false
-	want := make([]string, len(c.Srcs))
-	for i, s := range c.Srcs {
-		x := vk.Safe(func() (string, error) { return plush.Render(s, progs.Context(progs.Data(), progs.Helpers(nil), nil)) })
-		want[i] = x.String()
-	}
 	plush.CacheEnabled = true
 	n := atomic.AddInt64(&uniq, 1)
-	var bad atomic.Value
+	const steps = 8
+	got := make([][steps]string, c.G)
 	var wg sync.WaitGroup
 	start := make(chan struct{})
 	for g := 0; g < c.G; g++ {
@@ -242,32 +552,67 @@ func runParse(r *vk.Run, c ParseCase) *vk.Fail {
 		go func(g int) {
 			defer wg.Done()
 			<-start
-			for k := 0; k < 6; k++ {
+			for k := 0; k < steps; k++ {
 				i := (g + k) % len(c.Srcs)
 				src := fmt.Sprintf("<%%# c14p %d %%>%s", n, c.Srcs[i]) // same text in all goroutines: cold for the first, warm for the rest
-				x := vk.Safe(func() (string, error) {
-					if k%2 == 0 {
+				got[g][k] = vk.Safe(func() (string, error) {
+					switch (g + k/len(c.Srcs)) % 4 {
+					case 0, 2:
 						t, err := plush.Parse(src)
 						if err != nil {
 							return "", err
 						}
+						if c.Set {
+							plush.CacheSet(fmt.Sprintf("c14 set %d %d %d", n, g, k), t)
+						}
 						return t.Exec(progs.Context(progs.Data(), progs.Helpers(nil), nil))
+					case 1:
+						return plush.RenderR(strings.NewReader(src), progs.Context(progs.Data(), progs.Helpers(nil), nil))
 					}
-					return plush.Render(src, progs.Context(progs.Data(), progs.Helpers(nil), nil))
-				})
-				if x.String() != want[i] {
-					bad.Store(fmt.Sprintf("goroutine %d: %q gave %s, alone %s", g, c.Srcs[i], x, want[i]))
-				}
+					// the route Buffalo takes: data and helpers as maps (both new for every call)
+					data := map[string]interface{}{}
+					for name, v := range progs.Data() {
+						data[name] = model.ToPlush(v)
+					}
+					return plush.BuffaloRenderer(src, data, map[string]interface{}{"id": func(args ...interface{}) (interface{}, error) { return args[0], nil }})
+				}).String()
 			}
 		}(g)
 	}
 	close(start)
 	wg.Wait()
+	// the sequential baseline comes after the concurrent part (see runExec), cache off, twice
 	plush.CacheEnabled = false
+	want := make([]string, len(c.Srcs))
+	fails := false
+	for i, s := range c.Srcs {
+		s := "<%# c14p 0 %>" + s // like the concurrent texts: behind a comment
+		x := vk.Safe(func() (string, error) { return plush.Render(s, progs.Context(progs.Data(), progs.Helpers(nil), nil)) })
+		want[i] = x.String()
+		if x.Panicked() {
+			r.Exclude("panic (subject of C03/C04)")
+			return nil
+		}
+		if y := vk.Safe(func() (string, error) { return plush.Render(s, progs.Context(progs.Data(), progs.Helpers(nil), nil)) }); y.String() != want[i] {
+			r.Exclude("not reproducible alone")
+			return nil
+		}
+		fails = fails || x.Err != nil
+	}
 	key, _ := json.Marshal(c)
 	r.Count(string(key), "parse-render-cache-on")
-	if b := bad.Load(); b != nil {
-		return &vk.Fail{Kind: "parse", Case: c, Msg: b.(string)}
+	if c.Set {
+		r.Class("parse: with concurrent CacheSet")
+	}
+	if fails {
+		r.Class("parse: a text that fails alone (error texts compared)")
+	}
+	for g := range got {
+		for k := range got[g] {
+			if i := (g + k) % len(c.Srcs); got[g][k] != want[i] {
+				return &vk.Fail{Kind: "parse", Case: c, Msg: fmt.Sprintf("goroutine %d step %d: %q gave %s, alone %s", g, k, clip(c.Srcs[i]), clip(got[g][k]), clip(want[i]))}
+			}
+		}
 	}
 	return nil
 }
@@ -280,11 +625,17 @@ type CtxCase struct {
 }
 
 // op codes: 0 Set(a) 1 Set(b) 2 Value(a) 3 Has(b) 4 New() 5 New().Set 6 New().Value(a) 7 Value(builtin) 8 Render a template reading a on a child
+// on ONE child (kid) that all goroutines share: 9 kid.Value(a) - found in the parent 10 kid.Set(k) 11 kid.Has(b) 12 kid.New().Value(k) and the
+// parent's Value(k) - nil 13 Exec a template with a loop, a let and a condition on a child of kid 14 Value of a key that is no string
+const nOps = 15
+
 func runCtx(r *vk.Run, c CtxCase) *vk.Fail {
 	r.Current("ctx", c)
 	defer r.Watch("ctx", c)()
 	ctx := plush.NewContextWith(map[string]interface{}{"a": 0, "b": "x"})
 	t, _ := plush.NewTemplate(`<%= a %>|<%= if (b) { %>b<% } %>`)
+	t2, _ := plush.NewTemplate(`<%= for (i) in [1, 2] { %><%= a %>,<% } %><% let z = a %><%= z == nil %>|<%= if (b) { %>b<% } %>`)
+	kid := ctx.New()
 	var bad atomic.Value
 	var wg sync.WaitGroup
 	start := make(chan struct{})
@@ -295,7 +646,7 @@ func runCtx(r *vk.Run, c CtxCase) *vk.Fail {
 			<-start
 			for k, op := range c.Ops[g] {
 				x := vk.Safe(func() (string, error) {
-					switch op % 9 {
+					switch op % nOps {
 					case 0:
 						ctx.Set("a", g*1000+k)
 					case 1:
@@ -325,6 +676,34 @@ func runCtx(r *vk.Run, c CtxCase) *vk.Fail {
 						if err != nil || !strings.HasSuffix(out, "|b") {
 							return "", fmt.Errorf("render on a child gave %q, %v", out, err)
 						}
+					case 9:
+						if v, ok := kid.Value("a").(int); !ok || v < 0 {
+							return "", fmt.Errorf("the shared child sees a = %v: neither the initial nor a written value of the parent", kid.Value("a"))
+						}
+					case 10:
+						kid.Set("k", g*1000+k)
+					case 11:
+						if !kid.Has("b") {
+							return "", fmt.Errorf("the shared child: Has(b) is false although the parent always holds a non-nil b")
+						}
+					case 12:
+						if v := kid.New().Value("k"); v != nil {
+							if _, ok := v.(int); !ok {
+								return "", fmt.Errorf("grandchild sees k = %v", v)
+							}
+						}
+						if v := ctx.Value("k"); v != nil {
+							return "", fmt.Errorf("a value set on the child became visible in the parent: k = %v", v)
+						}
+					case 13:
+						out, err := t2.Exec(kid.New())
+						if err != nil || !strings.HasSuffix(out, ",false|b") {
+							return "", fmt.Errorf("render on a grandchild gave %q, %v", out, err)
+						}
+					case 14:
+						// what a key that is no string yields is not stated: called, not judged
+						_ = ctx.Value(42)
+						_ = kid.Value(struct{}{})
 					}
 					return "", nil
 				})
@@ -346,7 +725,7 @@ func runCtx(r *vk.Run, c CtxCase) *vk.Fail {
 
 // ---- the test -----------------------------------------------------------------------------------------------
 
-const rule = "built with the Go race detector (halt on first report; the case noted last is the replay). (A) one parsed template executed from G in {2,4,8,16,32} goroutines x {own root context, child of one shared parent} x cache {off: the very same *Template and its Clones; cold; warm} x 3 rounds; templates: 9 fixed snippets exercising template-local arrays and hashes with index assignment, accumulating assignment in loops, assignment (at top level, in a function, an if and a loop) to names that live in the shared parent, contentFor/contentOf, built-in helpers and iterators, operators (~=, ==) whose right operand is a data value that differs in every execution, and random all-construct programs (shared generator, with partials and block helpers). (A2) page + layout: every goroutine executes a page that stores blocks with contentFor and then, on the same context, a layout that renders them with contentOf (inside loops, with overrides, with a default block), so evaluator state captured by a stored block outlives the execution that created it. Every concurrent result must equal the sequential result. (B) concurrent Parse+Exec / Render of 1-4 equal and different texts with the cache on (first goroutine cold, the rest warm). (C) 2-16 goroutines running random mixes of Set / Value / Has / New / New().Set / New().Value / Value(built-in) / Exec on a child, all on ONE shared context, with invariants on what they may observe. Non-trivial = G >= 2 and the template uses >= 3 kinds of construct (A), every B and C case; distinct by case."
+const rule = "built with the Go race detector (halt on first report; the case noted last is the replay). In every phase the CONCURRENT part runs first and the sequential baseline after it (what the engine sets up once per process, on first use, is then first used by goroutines running at once), and between their start and their end the goroutines call nothing but plush: contexts, numbered strings and Go values are built before the start (a lock or an atomic of the harness inside them would order their accesses for the detector). (A) one parsed template executed from G in {2,4,8,16,32} goroutines (enumerations start with 32) x {own root context, child of one shared parent} x cache {off: the very same *Template and its Clones; cold; warm} x 3 rounds. Templates: 9 fixed snippets (template-local arrays and hashes with index assignment, accumulating assignment in loops, assignment to names that live in the shared parent, contentFor/contentOf, built-in helpers and iterators, ~= and == against a value that differs in every execution); 9 wide snippets that select fields and methods through values, pointers, indexes, map entries and call results (of a record that is the same in every execution, of one whose strings differ in every execution, and of a value whose Go TYPE is new in every execution), print every kind of value (time with and without TIME_FORMAT, HTML, Stringer, HTMLer, typed slices, maps), call EVERY built-in helper (also with structs and with a block), application helpers (variadic, option map, one that renders a text through its helper context), forgive unknown identifiers in every tolerated position, include partials (nested, with data, with a layout, in a loop; the text of every partial starts with a comment that is new in every run, so partial texts are always cold), nest block helpers three deep and call a function of the template recursively; calls nested 900 deep (the bound is 1000); 12 templates that FAIL (unknown identifier after forgiven ones, in a loop on line 4, in a block, in a function; division by zero; index out of bounds; bad pattern; helper error; missing partial; partial that does not parse; wrong argument type; missing member) and 4 texts that do not parse - their error texts must equal the sequential ones; 10 boundary templates (empty, text only, comment only, one tag, one silent tag, 30 nested ifs, 4 nested loops, 300 tags, 64 KB of text, non-ASCII); random all-construct programs (shared generator, with partials and block helpers) with a snippet of any pool appended. (A2) page + layout: every goroutine executes a page that stores blocks with contentFor and then, on the same context, a layout that renders them with contentOf. (A3) prelude: a template executed ONCE, alone, on the shared parent before the goroutines start leaves 21 functions, an array and a hash there; the children call and read them (4 templates; every function value is one object shared by all children). (A4, last phase, class stored-block-in-shared-parent) the prelude stores blocks with contentFor in the shared parent, the children render them with contentOf (with data that differs per execution, in loops, with a default block). A child of the shared parent is given the values that differ per execution itself. Every concurrent result must equal the sequential result; a sequential result that fails is taken twice and the case dropped if it is not reproducible alone. (B) concurrent Parse+Exec / Render / RenderR / BuffaloRenderer of 1-6 equal and different texts with the cache on (first goroutine cold, the rest warm), texts that do not parse among them, optionally with CacheSet under keys of the goroutine. (C) 2-16 goroutines running random mixes of 15 operations - Set / Value / Has / New / New().Set / New().Value / Value(built-in) / Exec on a child, all on ONE shared context, and Value / Set / Has / New().Value / Exec on a grandchild on ONE shared child of it, Value with a key that is no string (called, not judged) - with invariants on what they may observe (a value set on a child never shows in the parent). Non-trivial = G >= 2 and the template uses >= 3 kinds of construct (A; page+layout and prelude count as 3), every B and C case; distinct by case."
 
 func setup(t *testing.T) *vk.Run {
 	r := vk.Start(t, "C14", rule,
@@ -408,14 +787,19 @@ func TestProp(t *testing.T) {
 	r.ReplayCommitted()
 
 	gs := []int{2, 4, 8, 16, 32}
+	// the enumerated spaces start with the most goroutines: the first execution of a construct in the process is the
+	// only one that meets what is set up on first use, and 32 goroutines give it 496 pairs where 2 give one
+	gsDesc := []int{32, 16, 8, 4, 2}
 	ctxs := []string{"own-root", "child-of-shared-parent"}
 	caches := []string{"off", "cold", "warm"}
+	var cell int64 // numbers the cells of all enumerated spaces, for sharding
+	mine := func() bool { cell++; return r.Mine(cell - 1) }
 	var n int64
 	for _, s := range localSnippets {
-		for _, g := range gs {
+		for _, g := range gsDesc {
 			for _, cx := range ctxs {
 				for _, ca := range caches {
-					if r.Mine(n) {
+					if mine() {
 						r.Check(runExec(r, ExecCase{Src: s, G: g, Ctx: cx, Cache: ca, Rounds: 3}))
 					}
 					n++
@@ -427,9 +811,9 @@ func TestProp(t *testing.T) {
 	var m int64
 	for _, s := range pageSnippets {
 		for _, l := range layoutSnippets {
-			for _, g := range gs {
+			for _, g := range gsDesc {
 				for _, ca := range caches {
-					if r.Mine(n + m) {
+					if mine() {
 						r.Check(runExec(r, ExecCase{Src: s, Layout: l, G: g, Ctx: "own-root", Cache: ca, Rounds: 3}))
 					}
 					m++
@@ -439,49 +823,139 @@ func TestProp(t *testing.T) {
 	}
 	r.Subspace("2 pages storing blocks x 2 layouts rendering them in a second execution on the same context x G x 3 cache modes", m, true)
 
+	// wide pools. The thorough tier runs every G; the quick tier runs every (context mode, cache mode) with G
+	// rotating through {2,4,8,16,32} from cell to cell
+	matrix := func(name string, pool []string, partials map[string]string, prelude string, cxs []string) {
+		var k int64
+		for _, s := range pool {
+			for _, cx := range cxs {
+				for _, ca := range caches {
+					for gi, g := range gsDesc {
+						if r.Quick() && gi != int(k/int64(len(gs)))%len(gs) {
+							k++
+							continue
+						}
+						k++
+						if mine() {
+							r.Check(runExec(r, ExecCase{Src: s, Partials: partials, Prelude: prelude, G: g, Ctx: cx, Cache: ca, Rounds: 3}))
+						}
+					}
+				}
+			}
+		}
+		if r.Quick() {
+			r.Subspace(name+" x context modes x 3 cache modes, G rotating through {2,4,8,16,32}", k/int64(len(gs)), true)
+		} else {
+			r.Subspace(name+" x context modes x 3 cache modes x G in {2,4,8,16,32}", k, true)
+		}
+	}
+	matrix(fmt.Sprintf("%d wide snippets (paths, values, every built-in helper, forgiven unknown names, partials, nested block helpers, recursion)", len(wideSnippets)), wideSnippets, widePartials, "", ctxs)
+	var dk int64
+	for _, g := range gs {
+		for _, cx := range ctxs {
+			for _, ca := range caches {
+				if r.Quick() && !((g == 2 || g == 8) && cx == ctxs[0] && ca == "off") {
+					continue
+				}
+				if mine() {
+					r.Check(runExec(r, ExecCase{Src: deepSnippet, G: g, Ctx: cx, Cache: ca, Rounds: r.Pick(2, 3)}))
+				}
+				dk++
+			}
+		}
+	}
+	r.Subspace("calls nested 900 deep x G x context modes x cache modes (quick: G in {2,8}, own root, cache off)", dk, true)
+	matrix(fmt.Sprintf("%d failing templates", len(failingSnippets)), failingSnippets, widePartials, "", ctxs)
+	matrix(fmt.Sprintf("%d texts that do not parse", len(brokenSnippets)), brokenSnippets, nil, "", ctxs)
+	matrix(fmt.Sprintf("%d boundary templates", len(boundarySnippets)), boundarySnippets, nil, "", ctxs)
+	matrix(fmt.Sprintf("%d templates calling functions and reading values a prelude left in the shared parent", len(preludeFnUsers)), preludeFnUsers, nil, preludeFns, ctxs[1:])
+
+	// B: fixed mixes with texts that fail, and with CacheSet
+	for i, g := range gs {
+		srcs := append([]string{localSnippets[i], localSnippets[i+4]}, brokenSnippets...)
+		sort.Strings(srcs)
+		if mine() {
+			r.Check(runParse(r, ParseCase{Srcs: srcs, G: g, Set: i%2 == 0}))
+		}
+	}
+
 	// C: fixed heavy mixes
 	for _, g := range []int{2, 4, 8, 16} {
 		ops := make([][]int, g)
 		for i := range ops {
 			for k := 0; k < 60; k++ {
-				ops[i] = append(ops[i], (i*7+k*5)%9)
+				ops[i] = append(ops[i], (i*7+k*4)%nOps)
 			}
 		}
-		r.Check(runCtx(r, CtxCase{G: g, Ops: ops}))
+		if mine() {
+			r.Check(runCtx(r, CtxCase{G: g, Ops: ops}))
+		}
 	}
 
-	r.Rapid("exec", r.Pick(800, 4000), func(t *rapid.T) *vk.Fail {
+	allSnippets := append(append(append(append([]string{}, localSnippets...), wideSnippets[:len(wideSnippets)-1]...), failingSnippets...), boundarySnippets[:5]...)
+	r.Rapid("exec", r.Pick(600, 4000), func(t *rapid.T) *vk.Fail {
 		g := progs.New(t, progs.Options{MaxDepth: 3})
 		prog := g.Nodes(3, false)
 		pr := model.Printer{Compact: rapid.Bool().Draw(t, "compact")}
 		src := pr.Nodes(prog)
 		if rapid.Bool().Draw(t, "snippet") {
-			src += rapid.SampledFrom(localSnippets).Draw(t, "sn")
+			src += rapid.SampledFrom(allSnippets).Draw(t, "sn")
 		}
 		layout := ""
 		if rapid.IntRange(0, 3).Draw(t, "page+layout") == 0 {
 			src += rapid.SampledFrom(pageSnippets).Draw(t, "page")
 			layout = rapid.SampledFrom(layoutSnippets).Draw(t, "layout")
 		}
-		return runExec(r, ExecCase{Src: src, Layout: layout, Partials: progs.PartialText(pr, g.Partials), G: rapid.SampledFrom(gs).Draw(t, "G"),
-			Ctx: rapid.SampledFrom(ctxs).Draw(t, "ctx"), Cache: rapid.SampledFrom(caches).Draw(t, "cache"), Rounds: rapid.IntRange(1, 3).Draw(t, "rounds")})
+		partials := progs.PartialText(pr, g.Partials)
+		for name, text := range widePartials {
+			partials[name] = text
+		}
+		cx := rapid.SampledFrom(ctxs).Draw(t, "ctx")
+		prelude := ""
+		if cx == ctxs[1] && rapid.IntRange(0, 2).Draw(t, "prelude") == 0 {
+			// functions and values only: stored blocks in the shared parent are the last phase
+			prelude = preludeFnsSmall
+			src += rapid.SampledFrom(preludeFnUsers[:2]).Draw(t, "user")
+		}
+		return runExec(r, ExecCase{Src: src, Layout: layout, Prelude: prelude, Partials: partials, G: rapid.SampledFrom(gs).Draw(t, "G"),
+			Ctx: cx, Cache: rapid.SampledFrom(caches).Draw(t, "cache"), Rounds: rapid.IntRange(1, 3).Draw(t, "rounds")})
 	})
 	r.Rapid("parse", r.Pick(200, 1200), func(t *rapid.T) *vk.Fail {
 		k := rapid.IntRange(1, 4).Draw(t, "texts")
 		var srcs []string
 		for i := 0; i < k; i++ {
 			g := progs.New(t, progs.Options{MaxDepth: 2, NoCompose: true})
-			srcs = append(srcs, model.Printer{}.Nodes(g.Nodes(2, false)))
+			src := model.Printer{}.Nodes(g.Nodes(2, false))
+			if rapid.IntRange(0, 4).Draw(t, "broken") == 0 {
+				src += rapid.SampledFrom(brokenSnippets).Draw(t, "tail") // the text does not parse
+			}
+			srcs = append(srcs, src)
 		}
 		sort.Strings(srcs)
-		return runParse(r, ParseCase{Srcs: srcs, G: rapid.SampledFrom(gs).Draw(t, "G")})
+		return runParse(r, ParseCase{Srcs: srcs, G: rapid.SampledFrom(gs).Draw(t, "G"), Set: rapid.Bool().Draw(t, "CacheSet")})
 	})
 	r.Rapid("context", r.Pick(500, 3000), func(t *rapid.T) *vk.Fail {
 		g := rapid.IntRange(2, 16).Draw(t, "G")
 		ops := make([][]int, g)
 		for i := range ops {
-			ops[i] = rapid.SliceOfN(rapid.IntRange(0, 8), 1, 40).Draw(t, "ops")
+			ops[i] = rapid.SliceOfN(rapid.IntRange(0, nOps-1), 1, 40).Draw(t, "ops")
 		}
 		return runCtx(r, CtxCase{G: g, Ops: ops})
 	})
+
+	// LAST (see knownOpen): blocks stored in the shared parent by a prelude, rendered by the children
+	var sb int64
+	for _, pb := range preludeBlocks {
+		for _, u := range pb.Users {
+			for _, g := range gs {
+				for _, ca := range caches {
+					if mine() {
+						r.Check(runExec(r, ExecCase{Src: u, Prelude: pb.Prelude, G: g, Ctx: ctxs[1], Cache: ca, Rounds: 3}))
+					}
+					sb++
+				}
+			}
+		}
+	}
+	r.Subspace("3 preludes storing blocks in the shared parent x the layouts rendering them on the children x G x 3 cache modes", sb, true)
 }
